@@ -134,6 +134,9 @@ fn run<Rm: ModeTag, const B: Word>(m: &mut Mon, r: &mut Rng) {
         _ => "p>200",
     };
     let cell = format!("{}/b{}/{}", Rm::M.name(), base, pc);
+    // set by a case whose true value may be rational but was too expensive to write down: an Exact flag can
+    // then not be judged (counted inconclusive), the ulp test through the enclosure still applies
+    let exactness_unknown = std::cell::Cell::new(false);
     let judge = |m: &mut Mon, op: &str, f: Option<Func>, x: &Q, res: Result<dashu_float::round::Rounded<FBig<Rm, B>>, String>, exact_y: Option<Q>, enc: &dyn Fn(u32) -> Option<(Q, Q)>, desc: &dyn Fn() -> String, h: u64| {
         let mut incon = false;
         m.check(op, &cell, Some(h), desc, || {
@@ -170,6 +173,10 @@ fn run<Rm: ModeTag, const B: Word>(m: &mut Mon, r: &mut Rng) {
                 return Ok(());
             }
             // irrational true value: never exact
+            if flag == Flag::Exact && exactness_unknown.get() {
+                incon = true;
+                return Ok(());
+            }
             if flag == Flag::Exact {
                 return fail("flag_exact_for_inexact", format!("flagged Exact but {}({}) is irrational (result {}*{}^{})", op, show_q(x), v.repr().significand(), base, v.repr().exponent()));
             }
@@ -317,11 +324,31 @@ fn run<Rm: ModeTag, const B: Word>(m: &mut Mon, r: &mut Rng) {
                 ns /= BigInt::from(base);
                 ne += 1;
             }
+            let sgn = if sx.is_negative() && n % 2 != 0 { -Q::one() } else { Q::one() };
             let exact = if ns.magnitude().is_one() {
-                Some(pow_q(base, ne * n) * if sx.is_negative() && n % 2 != 0 { -Q::one() } else { Q::one() })
+                Some(pow_q(base, ne * n) * sgn)
             } else if cheap {
                 Some(Pow::pow(&x, n as i32))
+            } else if (n.unsigned_abs() as u64) * ns.bits() <= 3_000_000 && (ne * n).unsigned_abs() <= 4_000_000 {
+                // the power of the significand alone is affordable: s^|n| = m * B^k (m not divisible by B).
+                // n > 0: x^n = m * B^(k + e n), exactly.  n < 0: x^n = B^(-e|n|) / s^|n| has a finite
+                // expansion in base B iff s^|n| divides a power of B (e.g. s = 4, B = 16); otherwise the true
+                // value is rational with an infinite expansion and an Exact flag is wrong.
+                let sp: BigInt = Pow::pow(ns.magnitude(), n.unsigned_abs() as u32).into();
+                if n > 0 {
+                    Some(Q::from_integer(sp) * pow_q(base, ne * n) * sgn)
+                } else {
+                    let j = sp.bits() as u32 + 1;
+                    let bj: BigInt = Pow::pow(&BigInt::from(base), j);
+                    if (&bj % &sp).is_zero() {
+                        Some(Q::new(BigInt::one(), sp) * pow_q(base, ne * n) * sgn)
+                    } else {
+                        None
+                    }
+                }
             } else {
+                // cannot be written down: an Exact flag cannot be judged
+                exactness_unknown.set(true);
                 None
             };
             let xx = x.clone();
